@@ -32,7 +32,7 @@ def rand_cyclic(rng):
     import networkx as nx
     from .. import gen
 
-    g = gen.rand_dag(rng, n_in=rng.randint(1, 3), n_gates=rng.randint(3, 8), max_fanin=3, consts=0.15, out_is_input=0.2)
+    g = gen.rand_dag(rng, n_in=rng.randint(1, 3), n_gates=rng.randint(3, 8), max_fanin=3, consts=0.15, out_is_input=0.2, loaded_in_out=0.15)
     multi = [n for n in g.nodes if g.nodes[n]["type"] in gen.GATESN]
     gates = [n for n in g.nodes if g.nodes[n]["type"] in gen.GATES]
     added = 0
@@ -48,6 +48,12 @@ def rand_cyclic(rng):
             if not g.has_edge(u, v):
                 g.add_edge(u, v)
                 added += 1
+    if rng.random() < 0.2 and g.number_of_nodes() <= 10:
+        # a loop that no output observes (lint-clean: unloaded nodes are allowed by default)
+        ins = [n for n in g.nodes if g.nodes[n]["type"] == "input"]
+        g.add_node("dl0", type="nand", output=False)
+        g.add_node("dl1", type="nor", output=False)
+        g.add_edges_from([(rng.choice(ins), "dl0"), ("dl1", "dl0"), ("dl0", "dl1"), (rng.choice(ins), "dl1")])
     if nx.is_directed_acyclic_graph(g) or g.number_of_nodes() > 13:
         return None
     return proj_graph(g, "cyc")
